@@ -275,7 +275,7 @@ def owned_bytes(F):
     """[(instance, ok, message, loc, fid)]: every String node that intern creates views bytes owned by the pool's arena
     (the data and the length of one header returned by make_string(word.data(), word.length())), never the caller's
     buffer: the spelling of a node cannot change or dangle when the caller's buffer is reused."""
-    f = F.need_fn(INTERN)
+    f = F.intern_fn()
     S = Sym(F, opaque=lambda fid: F.fn.get(fid) is None or F.fn[fid]['name'] in ('word_if_known', 'make_string'), max_depth=40)
     try:
         outs = S.run(f['id'])
